@@ -95,6 +95,7 @@ structure XFrame (s s' : State) : Prop where
   gt : s'.genesis_time = s.genesis_time
   nwi : s'.next_withdrawal_index = s.next_withdrawal_index
   nwv : s'.next_withdrawal_validator_index = s.next_withdrawal_validator_index
+  blen : s'.balances.length = s.balances.length
 
 /-- an accepted altair … deneb attestation: one participation list is rewritten (same length, bytes below 256) and the
 proposer's balance grows by at most `bits · R · 54` -/
@@ -509,34 +510,36 @@ theorem processDeposit_ctx (cfg : Config) (ctx ctx' : Ctx) (st st' : State) (dep
 
 /-! ### frames of the extra fields -/
 
-theorem XFrame.refl (s : State) : XFrame s s := ⟨rfl, rfl, rfl, rfl, rfl, rfl, rfl⟩
+theorem XFrame.refl (s : State) : XFrame s s := ⟨rfl, rfl, rfl, rfl, rfl, rfl, rfl, rfl⟩
 
 theorem XFrame.trans {a b c : State} (h1 : XFrame a b) (h2 : XFrame b c) : XFrame a c :=
   ⟨by rw [h2.roots, h1.roots], by rw [h2.partc, h1.partc], by rw [h2.partp, h1.partp], by rw [h2.sc, h1.sc], by rw [h2.gt, h1.gt],
-   by rw [h2.nwi, h1.nwi], by rw [h2.nwv, h1.nwv]⟩
+   by rw [h2.nwi, h1.nwi], by rw [h2.nwv, h1.nwv], by rw [h2.blen, h1.blen]⟩
 
 theorem processHeader_x (st st' : State) (block : SignedBlock) (p : Nat) (h : processHeader st block p = .ok st') : XFrame st st' := by
   unfold processHeader at h
   simp only [guard_bind, rget_bind] at h
   repeat' split at h
-  all_goals first | (cases h; done) | (cases h; exact ⟨rfl, rfl, rfl, rfl, rfl, rfl, rfl⟩)
+  all_goals first | (cases h; done) | (cases h; exact ⟨rfl, rfl, rfl, rfl, rfl, rfl, rfl, rfl⟩)
 
 theorem processRandao_x (cfg : Config) (ctx : Ctx) (st st' : State) (block : SignedBlock)
     (h : processRandaoReveal cfg ctx st block = .ok st') : XFrame st st' := by
   unfold processRandaoReveal at h
   simp only [guard_bind, rget_bind, ofOpt_bind] at h
   repeat' split at h
-  all_goals first | (cases h; done) | (cases h; exact ⟨rfl, rfl, rfl, rfl, rfl, rfl, rfl⟩)
+  all_goals first | (cases h; done) | (cases h; exact ⟨rfl, rfl, rfl, rfl, rfl, rfl, rfl, rfl⟩)
 
 theorem processEth1_x (cfg : Config) (st st' : State) (data : Eth1Data) (h : processEth1Vote cfg st data = .ok st') : XFrame st st' := by
   unfold processEth1Vote at h
   simp only [guard_bind] at h
   repeat' split at h
-  all_goals first | (cases h; done) | (cases h; exact ⟨rfl, rfl, rfl, rfl, rfl, rfl, rfl⟩)
+  all_goals first | (cases h; done) | (cases h; exact ⟨rfl, rfl, rfl, rfl, rfl, rfl, rfl, rfl⟩)
 
 theorem slash_x (cfg : Config) (s s' : State) (i p : Nat) (h : Block.slash_validator_pure cfg s i p = some s') : XFrame s s' := by
   obtain ⟨V, SL, B, hrec⟩ := slash_pure_record cfg s s' i p h
-  rw [hrec]; exact ⟨rfl, rfl, rfl, rfl, rfl, rfl, rfl⟩
+  obtain ⟨_, _, _, _, _, _, _, _, _, _, _, _, _, _, _, _, hbal, _⟩ := slash_pure_shape cfg s s' i p h
+  have hbl : s'.balances.length = s.balances.length := by rw [hbal]; simp
+  rw [hrec] at hbl ⊢; exact ⟨rfl, rfl, rfl, rfl, rfl, rfl, rfl, hbl⟩
 
 /-! ### the invariant of altair … deneb block processing -/
 
@@ -579,24 +582,48 @@ structure AltConst (cfg : Config) (S0 : State) (Bm T : Nat) : Prop where
   h3 : (Block.sync_rewards cfg T).1 * PROPOSER_WEIGHT < 2 ^ 64
   hsync : cfg.SYNC_COMMITTEE_SIZE * ((Block.sync_rewards cfg T).1 + (Block.sync_rewards cfg T).2) ≤ cfg.MAX_VALIDATORS_PER_COMMITTEE * (2 * Bm)
 
+/-- balances and registry of equal length inside the registry limit, the withdrawal sweep cursor inside the registry, and
+room for `k` payloads of withdrawals in the withdrawal index (used from capella on; true of every well-formed state) -/
+structure WdInv (cfg : Config) (k : Nat) (st : State) : Prop where
+  wbal : st.balances.length = st.validators.length
+  vlim : st.validators.length ≤ cfg.VALIDATOR_REGISTRY_LIMIT
+  curv : st.next_withdrawal_validator_index < st.validators.length
+  nwi : st.next_withdrawal_index + k * cfg.MAX_WITHDRAWALS_PER_PAYLOAD + cfg.VALIDATOR_REGISTRY_LIMIT + 2 < 2 ^ 64
+
+theorem WdInv.mono {cfg : Config} {k : Nat} {st : State} (h : WdInv cfg (k + 1) st) : WdInv cfg k st :=
+  ⟨h.wbal, h.vlim, h.curv, by have := h.nwi; rw [Nat.succ_mul] at this; omega⟩
+
+theorem WdInv.frame {cfg : Config} {k : Nat} {st st' : State} (h : WdInv cfg (k + 1) st) (hx : XFrame st st')
+    (hvl : st'.validators.length = st.validators.length) : WdInv cfg k st' :=
+  ⟨by rw [hx.blen, hvl]; exact h.wbal, by rw [hvl]; exact h.vlim, by rw [hx.nwv, hvl]; exact h.curv,
+   by rw [hx.nwi]; exact h.mono.nwi⟩
+
 /-- the invariant of altair … deneb block processing with `k` units of budget -/
 structure AltInv (cfg : Config) (S0 : State) (p Bm C T : Nat) (committee : SyncCommittee) (k : Nat) (ctx : Ctx) (st : State) : Prop where
   base : P0DInv cfg S0 p Bm C k ctx st
   ext : AltExtra cfg T committee ctx st
+  wd : WdInv cfg k st
 
 theorem AltInv.mono {cfg : Config} {S0 : State} {p Bm C T k : Nat} {committee : SyncCommittee} {ctx : Ctx} {st : State}
-    (h : AltInv cfg S0 p Bm C T committee (k + 1) ctx st) : AltInv cfg S0 p Bm C T committee k ctx st := ⟨h.base.mono, h.ext⟩
+    (h : AltInv cfg S0 p Bm C T committee (k + 1) ctx st) : AltInv cfg S0 p Bm C T committee k ctx st := ⟨h.base.mono, h.ext, h.wd.mono⟩
+
+theorem AltInv.keepx {cfg : Config} {S0 : State} {p Bm C T k : Nat} {committee : SyncCommittee} {ctx : Ctx} {st st' : State}
+    (hi : AltInv cfg S0 p Bm C T committee (k + 1) ctx st) (hb : P0DInv cfg S0 p Bm C k ctx st') (hx : XFrame st st')
+    (hT : get_total_active_balance cfg st' = get_total_active_balance cfg st)
+    (heff : st'.validators.map (·.effective_balance) = st.validators.map (·.effective_balance)) : AltInv cfg S0 p Bm C T committee k ctx st' :=
+  ⟨hb, hi.ext.keep hx hT heff, hi.wd.frame hx (by have := congrArg List.length heff; simpa using this)⟩
 
 theorem alt_header (cfg : Config) (S0 : State) (p Bm C T : Nat) (committee : SyncCommittee) (block : SignedBlock) (k : Nat) (ctx : Ctx) (st : State)
     (hi : AltInv cfg S0 p Bm C T committee (k + 1) ctx st) :
     Sim (Block.process_block_header cfg st block) (ofOpt ctx.proposer >>= fun p => processHeader st block p) ∧
     ∀ st', (ofOpt ctx.proposer >>= fun p => processHeader st block p) = .ok st' → AltInv cfg S0 p Bm C T committee k ctx st' := by
   obtain ⟨h1, h2⟩ := p0d_header cfg S0 p Bm C block k ctx st hi.base
-  refine ⟨h1, fun st' h => ⟨h2 st' h, ?_⟩⟩
+  refine ⟨h1, fun st' h => ?_⟩
+  have hb := h2 st' h
   rw [hi.base.inv.base.ctxp] at h
   simp only [ofOpt, res_bind_ok] at h
   obtain ⟨hv, hs, _⟩ := processHeader_frame2 st st' block p h
-  exact hi.ext.keep (processHeader_x st st' block p h) (total_active_balance_vals cfg st st' hv hs) (by rw [hv])
+  exact hi.keepx hb (processHeader_x st st' block p h) (total_active_balance_vals cfg st st' hv hs) (by rw [hv])
 
 theorem alt_randao (cfg : Config) (S0 : State) (p Bm C T : Nat) (committee : SyncCommittee) (K : P0Const cfg S0 Bm C) (KA : P0AConst cfg)
     (block : SignedBlock) (ctx : Ctx) :
@@ -604,22 +631,27 @@ theorem alt_randao (cfg : Config) (S0 : State) (p Bm C T : Nat) (committee : Syn
       (fun st _ => processRandaoReveal cfg ctx st block) := by
   intro k st u hu hi
   obtain ⟨h1, h2⟩ := p0d_randao cfg S0 p Bm C K KA block ctx k st u hu hi.base
-  refine ⟨h1, fun st' h => ⟨⟨(h2 st' h).1, ?_⟩, fun hf => by cases hf⟩⟩
+  refine ⟨h1, fun st' h => ⟨?_, fun hf => by cases hf⟩⟩
   obtain ⟨hv, hs, _⟩ := processRandao_frame2 cfg ctx st st' block h
-  exact hi.ext.keep (processRandao_x cfg ctx st st' block h) (total_active_balance_vals cfg st st' hv hs) (by rw [hv])
+  exact hi.keepx (h2 st' h).1 (processRandao_x cfg ctx st st' block h) (total_active_balance_vals cfg st st' hv hs) (by rw [hv])
 
 theorem alt_eth1 (cfg : Config) (S0 : State) (p Bm C T : Nat) (committee : SyncCommittee) (K : P0Const cfg S0 Bm C) (block : SignedBlock) (ctx : Ctx) :
     Step (fun k => AltInv cfg S0 p Bm C T committee k ctx) false [()] (fun st _ => Block.process_eth1_data cfg st block)
       (fun st _ => processEth1Vote cfg st block.eth1_data) := by
   intro k st u hu hi
   obtain ⟨h1, h2⟩ := p0d_eth1 cfg S0 p Bm C K block ctx k st u hu hi.base
-  refine ⟨h1, fun st' h => ⟨⟨(h2 st' h).1, ?_⟩, fun hf => by cases hf⟩⟩
+  refine ⟨h1, fun st' h => ⟨?_, fun hf => by cases hf⟩⟩
   obtain ⟨hv, hs, _⟩ := processEth1_frame2 cfg st st' block.eth1_data h
-  exact hi.ext.keep (processEth1_x cfg st st' block.eth1_data h) (total_active_balance_vals cfg st st' hv hs) (by rw [hv])
+  exact hi.keepx (h2 st' h).1 (processEth1_x cfg st st' block.eth1_data h) (total_active_balance_vals cfg st st' hv hs) (by rw [hv])
 
 theorem AltExtra.of_same {cfg : Config} {T : Nat} {committee : SyncCommittee} {ctx : Ctx} {st st' : State}
     (h : AltExtra cfg T committee ctx st) (hx : XFrame st st') (hsc : SameCommittees cfg st st') : AltExtra cfg T committee ctx st' :=
   h.keep hx (total_active_balance_frame cfg st st' hsc) (map_eff_same cfg st st' hsc)
+
+theorem AltInv.samex {cfg : Config} {S0 : State} {p Bm C T k : Nat} {committee : SyncCommittee} {ctx : Ctx} {st st' : State}
+    (hi : AltInv cfg S0 p Bm C T committee (k + 1) ctx st) (hb : P0DInv cfg S0 p Bm C k ctx st') (hx : XFrame st st')
+    (hsc : SameCommittees cfg st st') : AltInv cfg S0 p Bm C T committee k ctx st' :=
+  hi.keepx hb hx (total_active_balance_frame cfg st st' hsc) (map_eff_same cfg st st' hsc)
 
 theorem alt_exit (cfg : Config) (S0 : State) (p Bm C T : Nat) (committee : SyncCommittee) (K : P0Const cfg S0 Bm C)
     (l : List SignedVoluntaryExit) (ctx : Ctx) :
@@ -627,10 +659,10 @@ theorem alt_exit (cfg : Config) (S0 : State) (p Bm C T : Nat) (committee : SyncC
   intro k st exit hx hi
   have K' := K.le (Nat.sub_le C (k + 1))
   obtain ⟨h1, h2⟩ := p0d_exit cfg S0 p Bm C K l ctx k st exit hx hi.base
-  refine ⟨h1, fun st' h => ⟨⟨(h2 st' h).1, ?_⟩, fun hf => by cases hf⟩⟩
+  refine ⟨h1, fun st' h => ⟨?_, fun hf => by cases hf⟩⟩
   obtain ⟨hact, hes, _, _, hs⟩ := hi.base.inv.base.facts K'
   obtain ⟨v, hv, _, hst'⟩ := processVoluntaryExit_shape cfg ctx st st' exit hact K.hq hs.reg hes h
-  apply hi.ext.of_same (by rw [hst']; exact ⟨rfl, rfl, rfl, rfl, rfl, rfl, rfl⟩)
+  apply hi.samex (h2 st' h).1 (by rw [hst']; exact ⟨rfl, rfl, rfl, rfl, rfl, rfl, rfl, rfl⟩)
   apply sameCommittees_initiate cfg st st' exit.validator_index (hs.curfar K'.hC)
   · rw [hst']
   · rw [hst']
@@ -642,7 +674,7 @@ theorem alt_proposerSlashing (cfg : Config) (S0 : State) (p Bm C T : Nat) (commi
   intro k st ps hx hi
   have K' := K.le (Nat.sub_le C (k + 1))
   obtain ⟨h1, h2⟩ := p0d_proposerSlashing cfg S0 p Bm C K l ctx k st ps hx hi.base
-  refine ⟨h1, fun st' h => ⟨⟨(h2 st' h).1, ?_⟩, (h2 st' h).2⟩⟩
+  refine ⟨h1, fun st' h => ⟨?_, (h2 st' h).2⟩⟩
   obtain ⟨hact, hes, hsm, _, hs⟩ := hi.base.inv.base.facts K'
   have hz' : cfg.EPOCHS_PER_SLASHINGS_VECTOR ≠ 0 ∧ min_slashing_penalty_quotient cfg st.fork ≠ 0 ∧
       cfg.WHISTLEBLOWER_REWARD_QUOTIENT ≠ 0 ∧ cfg.PROPOSER_REWARD_QUOTIENT ≠ 0 := by rw [hs.fork]; exact K.hz
@@ -654,7 +686,7 @@ theorem alt_proposerSlashing (cfg : Config) (S0 : State) (p Bm C T : Nat) (commi
     rw [hpure] at hsv
     simp only [optRes] at hsv
     cases hsv
-    exact hi.ext.of_same (slash_x cfg st st' _ p hpure) (slash_sameCommittees cfg st st' _ p (hs.curfar K'.hC) hpure)
+    exact hi.samex (h2 st' h).1 (slash_x cfg st st' _ p hpure) (slash_sameCommittees cfg st st' _ p (hs.curfar K'.hC) hpure)
 
 theorem alt_attesterSlashing (cfg : Config) (S0 : State) (p Bm C T : Nat) (committee : SyncCommittee) (K : P0Const cfg S0 Bm C)
     (l : List AttesterSlashing) (ctx : Ctx)
@@ -664,7 +696,7 @@ theorem alt_attesterSlashing (cfg : Config) (S0 : State) (p Bm C T : Nat) (commi
   intro k st op hop hi
   have K' := K.le (Nat.sub_le C (k + 1))
   obtain ⟨h1, h2⟩ := p0d_attesterSlashing cfg S0 p Bm C K l ctx hl k st op hop hi.base
-  refine ⟨h1, fun st' h => ⟨⟨(h2 st' h).1, ?_⟩, (h2 st' h).2⟩⟩
+  refine ⟨h1, fun st' h => ⟨?_, (h2 st' h).2⟩⟩
   obtain ⟨_, _, _, _, hs⟩ := hi.base.inv.base.facts K'
   obtain ⟨hlen1, hlen2⟩ := hl op hop
   obtain ⟨lst, b, hll, hfold⟩ := processAttesterSlashing_shape cfg ctx st st' op hlen1 hlen2 hi.base.inv.base.vlen h
@@ -675,7 +707,7 @@ theorem alt_attesterSlashing (cfg : Config) (S0 : State) (p Bm C T : Nat) (commi
     rw [this]; exact hs
   have hx := slash_fold_rel cfg ctx S0 p Bm _ K' hi.base.inv.base.ctxp XFrame XFrame.refl (fun a b c h1 h2 => h1.trans h2)
     (fun a b i hp => slash_x cfg a b i p hp) lst st false _ (st', b) hstart hfold
-  exact hi.ext.of_same hx (slash_fold_same cfg ctx S0 p Bm _ K' hi.base.inv.base.ctxp lst st false _ (st', b) hstart hfold)
+  exact hi.samex (h2 st' h).1 hx (slash_fold_same cfg ctx S0 p Bm _ K' hi.base.inv.base.ctxp lst st false _ (st', b) hstart hfold)
 
 /-! ### attestations of altair … deneb -/
 
@@ -792,7 +824,7 @@ theorem alt_attestation (cfg : Config) (S0 : State) (p Bm C T : Nat) (committee 
     rw [hpure] at h
     simp only [optRes] at h
     cases h
-    obtain ⟨hv, hsl, hm, hf, hsls, e1, e2, hbr, hsc, hgt, _, _, c1, c2, p1, p2, q, b, δ, hb, hbs, hδ⟩ :=
+    obtain ⟨hv, hsl, hm, hf, hsls, e1, e2, hbr, hsc, hgt, hnwi, hnwv, c1, c2, p1, p2, q, b, δ, hb, hbs, hδ⟩ :=
       altair_attestation_shape cfg st st' att _ _ _ T R hR (hi.base.inv.nd _ _) hi.ext.partc.2 hi.ext.partp.2 hpure
     have hδ' : δ ≤ cfg.MAX_VALIDATORS_PER_COMMITTEE * (2 * Bm) := by
       have : att.aggregation_bits.length * (R * 54) ≤ cfg.MAX_VALIDATORS_PER_COMMITTEE * (R * 54) := Nat.mul_le_mul_right _ hmaxbits
@@ -809,10 +841,12 @@ theorem alt_attestation (cfg : Config) (S0 : State) (p Bm C T : Nat) (committee 
       ⟨⟨hs', hi.base.inv.base.ctxp, by rw [hv]; exact hi.base.inv.base.plt, by rw [hm]; exact hi.base.inv.base.mixes,
         by rw [hv]; exact hi.base.inv.base.vlen⟩,
        hi.base.inv.comm.keep hv hsl (fun e _ _ => seed_of_mixes cfg st st' _ _ hm), hi.base.inv.nd, hi.base.inv.hcur⟩
-    refine ⟨⟨hi.base.after hinv (by rw [hv]) e2, ?_⟩, fun _ => ⟨e1, e2⟩⟩
-    exact ⟨by rw [hbr]; exact hi.ext.roots, ⟨by rw [c1, hv]; exact hi.ext.partc.1, c2⟩, ⟨by rw [p1, hv]; exact hi.ext.partp.1, p2⟩,
+    refine ⟨⟨hi.base.after hinv (by rw [hv]) e2, ?_, ?_⟩, fun _ => ⟨e1, e2⟩⟩
+    · exact ⟨by rw [hbr]; exact hi.ext.roots, ⟨by rw [c1, hv]; exact hi.ext.partc.1, c2⟩, ⟨by rw [p1, hv]; exact hi.ext.partp.1, p2⟩,
       by rw [total_active_balance_vals cfg st st' hv hsl]; exact hi.ext.tab, hi.ext.ctxT, hi.ext.ctxS, by rw [hv]; exact hi.ext.heb,
       by rw [hsc]; exact hi.ext.sc, hi.ext.sclen, hi.ext.sidx, by rw [hgt]; exact hi.ext.gt⟩
+    · exact ⟨by rw [hbs, List.length_set, hv]; exact hi.wd.wbal, by rw [hv]; exact hi.wd.vlim, by rw [hnwv, hv]; exact hi.wd.curv,
+        by rw [hnwi]; exact hi.wd.mono.nwi⟩
 
 /-! ### the sync aggregate -/
 
@@ -872,8 +906,8 @@ theorem alt_sync (cfg : Config) (S0 : State) (p Bm C T : Nat) (committee : SyncC
       ⟨⟨hs', hi.base.inv.base.ctxp, by rw [hrec]; exact hi.base.inv.base.plt, by rw [hrec]; exact hi.base.inv.base.mixes,
         by rw [hrec]; exact hi.base.inv.base.vlen⟩,
        hi.base.inv.comm.keep (by rw [hrec]) (by rw [hrec]) (fun e _ _ => seed_of_mixes cfg st st' _ _ (by rw [hrec])), hi.base.inv.nd, hi.base.inv.hcur⟩
-    refine ⟨hi.base.after hinv (by rw [hrec]) (by rw [hrec]), ?_⟩
-    exact hi.ext.keep (by rw [hrec]; exact ⟨rfl, rfl, rfl, rfl, rfl, rfl, rfl⟩) (total_active_balance_vals cfg st st' (by rw [hrec]) (by rw [hrec])) (by rw [hrec])
+    exact hi.keepx (hi.base.after hinv (by rw [hrec]) (by rw [hrec])) (by rw [hrec]; exact ⟨rfl, rfl, rfl, rfl, rfl, rfl, rfl, hblen⟩)
+      (total_active_balance_vals cfg st st' (by rw [hrec]) (by rw [hrec])) (by rw [hrec])
 
 /-! ### deposits of altair … deneb -/
 
@@ -886,9 +920,11 @@ theorem alt_deposit (cfg : Config) (S0 : State) (p Bm C T : Nat) (committee : Sy
       ∀ r, processDeposit cfg ctx st d = .ok r → AltInv cfg S0 p Bm C T committee k r.1 r.2 := by
   intro k ctx st d hd hi
   obtain ⟨h1, h2⟩ := p0d_deposit cfg S0 p Bm C K KD l hl k ctx st d hd hi.base
-  refine ⟨h1, fun r hr => ⟨h2 r hr, ?_⟩⟩
+  refine ⟨h1, fun r hr => ?_⟩
+  have hbase := h2 r hr
   obtain ⟨ctx', st'⟩ := r
-  simp only []
+  simp only [] at hbase ⊢
+  suffices hsuf : AltExtra cfg T committee ctx' st' ∧ WdInv cfg k st' from ⟨hbase, hsuf.1, hsuf.2⟩
   have hs := hi.base.inv.base.slash
   obtain ⟨t1, t2, t3, t4, t5⟩ := processDeposit_ctx cfg ctx ctx' st st' d hr
   have hsidx : ∃ l, ctx'.syncIndices = some l ∧ committee.pubkeys.mapM ctx'.pubkeyIndex = some l := by
@@ -899,27 +935,31 @@ theorem alt_deposit (cfg : Config) (S0 : State) (p Bm C T : Nat) (committee : Sy
   have heb := t4 hi.ext.heb
   rcases processDeposit_shape cfg ctx ctx' st st' d hr with ⟨i, b, _, hlt, hb, hc, hst⟩ | ⟨hc, hst⟩ | ⟨hnone, hadd, c1, c2, c3, c4, c5⟩
   · have hv : st'.validators = st.validators := by rw [hst]
-    exact ⟨by rw [hst]; exact hi.ext.roots, by rw [hst]; exact hi.ext.partc, by rw [hst]; exact hi.ext.partp,
+    refine ⟨⟨by rw [hst]; exact hi.ext.roots, by rw [hst]; exact hi.ext.partc, by rw [hst]; exact hi.ext.partp,
       by rw [total_active_balance_vals cfg st st' hv (by rw [hst])]; exact hi.ext.tab, hctxT, hctxS, heb, by rw [hst]; exact hi.ext.sc,
-      hi.ext.sclen, hsidx, by rw [hst]; exact hi.ext.gt⟩
+      hi.ext.sclen, hsidx, by rw [hst]; exact hi.ext.gt⟩, ?_⟩
+    exact ⟨by rw [hst]; simp only [List.length_set]; exact hi.wd.wbal, by rw [hst]; exact hi.wd.vlim, by rw [hst]; exact hi.wd.curv,
+      by rw [hst]; exact hi.wd.mono.nwi⟩
   · have hv : st'.validators = st.validators := by rw [hst]
-    exact ⟨by rw [hst]; exact hi.ext.roots, by rw [hst]; exact hi.ext.partc, by rw [hst]; exact hi.ext.partp,
+    refine ⟨⟨by rw [hst]; exact hi.ext.roots, by rw [hst]; exact hi.ext.partc, by rw [hst]; exact hi.ext.partp,
       by rw [total_active_balance_vals cfg st st' hv (by rw [hst])]; exact hi.ext.tab, hctxT, hctxS, heb, by rw [hst]; exact hi.ext.sc,
-      hi.ext.sclen, hsidx, by rw [hst]; exact hi.ext.gt⟩
-  · obtain ⟨eff, heff, hlim, hvals0, hbals, hslot, hmix, hfk, hsls, hdi, he1, hbr, hscc, hgt, _, _, hpart⟩ := addValidator_fields cfg
+      hi.ext.sclen, hsidx, by rw [hst]; exact hi.ext.gt⟩, ?_⟩
+    exact ⟨by rw [hst]; exact hi.wd.wbal, by rw [hst]; exact hi.wd.vlim, by rw [hst]; exact hi.wd.curv,
+      by rw [hst]; exact hi.wd.mono.nwi⟩
+  · obtain ⟨eff, heff, hlim, hvals0, hbals, hslot, hmix, hfk, hsls, hdi, he1, hbr, hscc, hgt, hnwi, hnwv, hpart⟩ := addValidator_fields cfg
       { st with eth1_deposit_index := w64 (st.eth1_deposit_index + 1) } st' d.data.pubkey d.data.withdrawal_credentials d.data.amount hadd
     have hfork : st.fork ≠ .phase0 := by rw [hs.fork, hF]; exact hF0
     obtain ⟨hpc, hpp⟩ := hpart hfork
-    simp only [] at hvals0 hslot hbr hscc hpc hpp hgt
+    simp only [] at hvals0 hslot hbr hscc hpc hpp hgt hnwi hnwv hbals hlim
     generalize hvdef : (⟨d.data.pubkey, d.data.withdrawal_credentials, eff, false, FAR_FUTURE_EPOCH, FAR_FUTURE_EPOCH, FAR_FUTURE_EPOCH,
       FAR_FUTURE_EPOCH⟩ : Validator) = v at hvals0
     have hfresh : FreshValidator v := by rw [← hvdef]; exact ⟨rfl, rfl, rfl, rfl, rfl⟩
     have hcurfar := hs.curfar (K.le (Nat.sub_le C (k + 1))).hC
     have hinact := fresh_inactive v hfresh _ hcurfar
     have hlen : st'.validators.length = st.validators.length + 1 := by rw [hvals0]; simp
-    refine ⟨by rw [hbr]; exact hi.ext.roots, ⟨by rw [hpc, hlen]; simp [hi.ext.partc.1], ?_⟩, ⟨by rw [hpp, hlen]; simp [hi.ext.partp.1], ?_⟩,
+    refine ⟨⟨by rw [hbr]; exact hi.ext.roots, ⟨by rw [hpc, hlen]; simp [hi.ext.partc.1], ?_⟩, ⟨by rw [hpp, hlen]; simp [hi.ext.partp.1], ?_⟩,
       by rw [total_active_balance_append cfg st st' v hslot hvals0 hinact]; exact hi.ext.tab, hctxT, hctxS, heb,
-      by rw [hscc]; exact hi.ext.sc, hi.ext.sclen, hsidx, by rw [hgt]; exact hi.ext.gt⟩
+      by rw [hscc]; exact hi.ext.sc, hi.ext.sclen, hsidx, by rw [hgt]; exact hi.ext.gt⟩, ?_⟩
     · rw [hpc]
       intro e he
       rcases List.mem_append.mp he with h | h
@@ -930,6 +970,7 @@ theorem alt_deposit (cfg : Config) (S0 : State) (p Bm C T : Nat) (committee : Sy
       rcases List.mem_append.mp he with h | h
       · exact hi.ext.partp.2 e h
       · simp only [List.mem_singleton] at h; omega
+    · refine ⟨by rw [hbals, hlen]; simp [hi.wd.wbal], by rw [hlen]; omega, by rw [hnwv, hlen]; have := hi.wd.curv; omega, by rw [hnwi]; exact hi.wd.mono.nwi⟩
 
 /-! ### the blocks of altair … deneb -/
 
@@ -1048,8 +1089,8 @@ theorem alt_payload (cfg : Config) (S0 : State) (p Bm C T : Nat) (committee : Sy
   refine ⟨sim_payload cfg st block payload hf hx hi.base.inv.base.mixes K.hpos hsps hi.ext.gt, fun st' h => ⟨?_, fun hf => by cases hf⟩⟩
   show AltInv cfg S0 p Bm C T committee k ctx st'
   have hrec := processExecutionPayload_rec cfg st st' block payload h
-  exact ⟨hi.base.keep_all (by rw [hrec]) (by rw [hrec]) (by rw [hrec]) (by rw [hrec]) (by rw [hrec]) (by rw [hrec]) (by rw [hrec]),
-    hi.ext.keep (by rw [hrec]; exact ⟨rfl, rfl, rfl, rfl, rfl, rfl, rfl⟩) (total_active_balance_vals cfg st st' (by rw [hrec]) (by rw [hrec])) (by rw [hrec])⟩
+  exact hi.keepx (hi.base.keep_all (by rw [hrec]) (by rw [hrec]) (by rw [hrec]) (by rw [hrec]) (by rw [hrec]) (by rw [hrec]) (by rw [hrec]))
+    (by rw [hrec]; exact ⟨rfl, rfl, rfl, rfl, rfl, rfl, rfl, rfl⟩) (total_active_balance_vals cfg st st' (by rw [hrec]) (by rw [hrec])) (by rw [hrec])
 
 /-- a bellatrix block container: no BLS changes; the payload's `extra_data` inside its type limit -/
 structure BellatrixBlock (cfg : Config) (Bm : Nat) (block : SignedBlock) : Prop where
@@ -1082,5 +1123,372 @@ theorem postSlot_bellatrix (cfg : Config) (S0 : State) (p Bm C T k : Nat) (commi
     (r : Bytes) (hroot : block.o_post_root = some r) :
     Sim (Block.state_transition_post_slots cfg S0 block) (postSlotTransition cfg ctx S0 block) :=
   postSlot_sim (opSteps_bellatrix cfg S0 p Bm C T committee K KA KD KL hsps hF block hb) k ctx S0 hi htyped r hroot
+
+/-! ### capella: BLS-to-execution changes -/
+
+/-- an accepted BLS change rewrites the withdrawal credentials of one validator -/
+theorem processBLSToExecutionChange_shape (st st' : State) (op : SignedBLSToExecutionChange)
+    (h : processBLSToExecutionChange st op = .ok st') :
+    ∃ v wc, st.validators[op.validator_index]? = some v ∧
+      st' = { st with validators := st.validators.set op.validator_index { v with withdrawal_credentials := wc } } := by
+  unfold processBLSToExecutionChange at h
+  simp only [guard_bind, rget_bind] at h
+  repeat' split at h
+  all_goals first | (cases h; done) | skip
+  rename_i v hv _ _ _
+  cases h
+  exact ⟨v, _, hv, rfl⟩
+
+/-- `SlashInv` only looks at effective balances, activity, exit and withdrawable epochs of the registry -/
+theorem SlashInv.of_same {cfg : Config} {s0 : State} {p A Bm C j : Nat} {st st' : State}
+    (h : SlashInv cfg s0 p A Bm C j st) (hsc : SameCommittees cfg st st')
+    (hex : st'.validators.map (·.exit_epoch) = st.validators.map (·.exit_epoch))
+    (hwd : st'.validators.map (·.withdrawable_epoch) = st.validators.map (·.withdrawable_epoch))
+    (hf : st'.fork = st.fork) (hsl : st'.slashings = st.slashings) (hb : st'.balances = st.balances) :
+    SlashInv cfg s0 p A Bm C j st' := by
+  have hd := hsc.duties
+  have hcur : st.slot / cfg.SLOTS_PER_EPOCH = s0.slot / cfg.SLOTS_PER_EPOCH := by rw [h.slot]
+  have heffm := map_eff_same cfg st st' hsc
+  obtain ⟨hexits, hq⟩ := exits_congr st'.validators st.validators hex
+  refine ⟨by rw [hsc.1]; exact h.slot, by rw [hf]; exact h.fork, by rw [proposer_frame cfg st st' hd]; exact h.proposer, ?_, ?_, ?_, ?_,
+    by rw [hsl]; exact h.slashings, by rw [hb]; exact h.balances, by rw [hsl]; exact h.slen⟩
+  · rw [← h.active]
+    apply filter_length_congr _ _ _ hd.2.2.1.symm
+    intro j w w' h1 h2
+    have := (hd.2.2.2 j w w' h1 h2).2
+    unfold get_current_epoch compute_epoch_at_slot at this
+    rw [hcur] at this
+    exact this
+  · unfold qmax farCount
+    rw [hexits, hq]
+    exact h.budget
+  · intro v hv
+    have h1 : v.exit_epoch ∈ st'.validators.map (·.exit_epoch) := List.mem_map.mpr ⟨v, hv, rfl⟩
+    have h2 : v.withdrawable_epoch ∈ st'.validators.map (·.withdrawable_epoch) := List.mem_map.mpr ⟨v, hv, rfl⟩
+    rw [hex] at h1
+    rw [hwd] at h2
+    obtain ⟨u1, hu1, e1⟩ := List.mem_map.mp h1
+    obtain ⟨u2, hu2, e2⟩ := List.mem_map.mp h2
+    exact ⟨by rw [← e1]; exact (h.reg u1 hu1).1, by rw [← e2]; exact (h.reg u2 hu2).2⟩
+  · intro v hv
+    have h1 : v.effective_balance ∈ st'.validators.map (·.effective_balance) := List.mem_map.mpr ⟨v, hv, rfl⟩
+    rw [heffm] at h1
+    obtain ⟨u1, hu1, e1⟩ := List.mem_map.mp h1
+    rw [← e1]; exact h.eff u1 hu1
+
+theorem alt_bls (cfg : Config) (S0 : State) (p Bm C T : Nat) (committee : SyncCommittee) (l : List SignedBLSToExecutionChange) (ctx : Ctx) :
+    Step (fun k => AltInv cfg S0 p Bm C T committee k ctx) false l (Block.process_bls_to_execution_change cfg)
+      (fun st op => processBLSToExecutionChange st op) := by
+  intro k st op hop hi
+  refine ⟨sim_blsChange cfg st op, fun st' h => ⟨?_, fun hf => by cases hf⟩⟩
+  show AltInv cfg S0 p Bm C T committee k ctx st'
+  have h : processBLSToExecutionChange st op = .ok st' := h
+  obtain ⟨v, wc, hv, hrec⟩ := processBLSToExecutionChange_shape st st' op h
+  have hvals : st'.validators = st.validators.set op.validator_index { v with withdrawal_credentials := wc } := by rw [hrec]
+  have hsc : SameCommittees cfg st st' :=
+    sameCommittees_set_same cfg st st' op.validator_index v { v with withdrawal_credentials := wc } (by rw [hrec]) (by rw [hrec]) hv hvals rfl rfl rfl
+  have hlen : st'.validators.length = st.validators.length := hsc.2.2.1
+  have hsk : SlashInv cfg S0 p ctx.activeCount Bm (C - (k + 1)) (k * cfg.MAX_VALIDATORS_PER_COMMITTEE) st := hi.base.inv.mono.base.slash
+  have hs' := hsk.of_same hsc (by rw [hvals]; exact map_set_same (·.exit_epoch) _ _ v _ hv rfl)
+    (by rw [hvals]; exact map_set_same (·.withdrawable_epoch) _ _ v _ hv rfl) (by rw [hrec]) (by rw [hrec]) (by rw [hrec])
+  have hinv : P0AInv cfg S0 p Bm (C - (k + 1)) k ctx st' :=
+    ⟨⟨hs', hi.base.inv.base.ctxp, by rw [hlen]; exact hi.base.inv.base.plt, by rw [hrec]; exact hi.base.inv.base.mixes,
+      by rw [hlen]; exact hi.base.inv.base.vlen⟩, hi.base.inv.comm.of_same hsc, hi.base.inv.nd, hi.base.inv.hcur⟩
+  exact hi.samex (hi.base.after hinv (by rw [hvals]; exact map_set_same (·.pubkey) _ _ v _ hv rfl) (by rw [hrec]))
+    (by rw [hrec]; exact ⟨rfl, rfl, rfl, rfl, rfl, rfl, rfl, rfl⟩) hsc
+
+/-! ### capella: withdrawals -/
+
+/-- the withdrawals the sweep collects carry consecutive indices from the state's withdrawal index on, name validators
+of the registry, and are at most `MAX_WITHDRAWALS_PER_PAYLOAD` many -/
+theorem withdrawalsLoop_bounds (cfg : Config) (s : State) (epoch : Nat) (base : Nat) :
+    ∀ (fuel i wi vi : Nat) (ws r : List Withdrawal), ws.length < cfg.MAX_WITHDRAWALS_PER_PAYLOAD → wi = base + ws.length →
+      (∀ w ∈ ws, w.index < wi ∧ w.validator_index < s.validators.length) → wi + fuel < 2 ^ 64 →
+      withdrawalsLoop cfg s epoch s.validators.length fuel i wi vi ws = .ok r →
+      r.length ≤ cfg.MAX_WITHDRAWALS_PER_PAYLOAD ∧ ∀ w ∈ r, w.index < base + r.length ∧ w.validator_index < s.validators.length := by
+  intro fuel
+  induction fuel with
+  | zero => intro i wi vi ws r _ _ _ _ h; unfold withdrawalsLoop at h; cases h
+  | succ f ih =>
+    intro i wi vi ws r hlt hwi hws hroom h
+    have hdone : r = ws → r.length ≤ cfg.MAX_WITHDRAWALS_PER_PAYLOAD ∧ ∀ w ∈ r, w.index < base + r.length ∧ w.validator_index < s.validators.length := by
+      intro hr; subst hr
+      exact ⟨by omega, fun w hw => ⟨by have := (hws w hw).1; omega, (hws w hw).2⟩⟩
+    unfold withdrawalsLoop at h
+    cases hv : s.validators[vi]? with
+    | none => rw [hv] at h; cases h
+    | some validator =>
+      cases hb : s.balances[vi]? with
+      | none => rw [hv, hb] at h; cases h
+      | some balance =>
+        rw [hv, hb] at h
+        simp only [] at h
+        have hvi : vi < s.validators.length := (List.getElem?_eq_some_iff.mp hv).1
+        split at h
+        · cases h; exact hdone rfl
+        · -- the step
+          have hw1 : (wi + 1) % 2 ^ 64 = wi + 1 := Nat.mod_eq_of_lt (by omega)
+          have hstep : ∀ (ws' : List Withdrawal) (wi' : Nat), ws'.length ≤ cfg.MAX_WITHDRAWALS_PER_PAYLOAD → wi' = base + ws'.length →
+              (∀ w ∈ ws', w.index < wi' ∧ w.validator_index < s.validators.length) → wi' + f < 2 ^ 64 →
+              (if ws'.length = cfg.MAX_WITHDRAWALS_PER_PAYLOAD then Res.ok ws'
+                else if s.validators.length = 0 then Res.panic
+                else withdrawalsLoop cfg s epoch s.validators.length f (i + 1) wi' ((vi + 1) % 2 ^ 64 % s.validators.length) ws') = .ok r →
+              r.length ≤ cfg.MAX_WITHDRAWALS_PER_PAYLOAD ∧ ∀ w ∈ r, w.index < base + r.length ∧ w.validator_index < s.validators.length := by
+            intro ws' wi' hle hwi' hws' hroom' h'
+            split at h'
+            · cases h'
+              exact ⟨hle, fun w hw => ⟨by have := (hws' w hw).1; omega, (hws' w hw).2⟩⟩
+            · rename_i hne
+              split at h'
+              · cases h'
+              · exact ih _ wi' _ ws' r (by omega) hwi' hws' hroom' h'
+          have happ : ∀ (a : Bytes) (amt : Nat), ∀ w ∈ ws ++ [(⟨wi, vi, a, amt⟩ : Withdrawal)], w.index < wi + 1 ∧ w.validator_index < s.validators.length := by
+            intro a amt w hw
+            rcases List.mem_append.mp hw with h1 | h1
+            · exact ⟨by have := (hws w h1).1; omega, (hws w h1).2⟩
+            · simp only [List.mem_singleton] at h1
+              subst h1; exact ⟨by simp, hvi⟩
+          by_cases hfull : Block.is_fully_withdrawable_validator validator balance epoch = true
+          · simp only [hfull, if_true, hw1] at h
+            exact hstep _ _ (by simp; omega) (by simp; omega) (happ _ _) (by omega) h
+          · by_cases hpart : Block.is_partially_withdrawable_validator cfg validator balance = true
+            · simp only [hfull, hpart, if_true, if_false, Bool.false_eq_true, hw1] at h
+              exact hstep _ _ (by simp; omega) (by simp; omega) (happ _ _) (by omega) h
+            · simp only [hfull, hpart, if_false, Bool.false_eq_true] at h
+              exact hstep _ _ (by omega) hwi hws (by omega) h
+
+theorem expectedWithdrawals_bounds (cfg : Config) (s : State) (r : List Withdrawal) (hmax : cfg.MAX_WITHDRAWALS_PER_PAYLOAD ≠ 0)
+    (hroom : s.next_withdrawal_index + s.validators.length + 1 < 2 ^ 64) (h : expectedWithdrawals cfg s = .ok r) :
+    r.length ≤ cfg.MAX_WITHDRAWALS_PER_PAYLOAD ∧
+    ∀ w ∈ r, w.index < s.next_withdrawal_index + r.length ∧ w.validator_index < s.validators.length := by
+  unfold expectedWithdrawals at h
+  exact withdrawalsLoop_bounds cfg s _ s.next_withdrawal_index _ _ _ _ [] r (by simp; omega) (by simp) (fun w hw => by cases hw) (by omega) h
+
+/-- the balance loop of `ProcessWithdrawals` writes the balances only, none of them upwards -/
+theorem withdrawalsApplyLoop_shape : ∀ (es ws : List Withdrawal) (s s' : State), withdrawalsApplyLoop es ws s = .ok s' →
+    ∃ b', s' = { s with balances := b' } ∧ b'.length = s.balances.length ∧ ∀ B, (∀ x ∈ s.balances, x ≤ B) → ∀ x ∈ b', x ≤ B := by
+  intro es
+  induction es with
+  | nil =>
+    intro ws s s' h
+    unfold withdrawalsApplyLoop at h
+    cases h
+    exact ⟨s.balances, rfl, rfl, fun B hB => hB⟩
+  | cons e es ih =>
+    intro ws s s' h
+    unfold withdrawalsApplyLoop at h
+    cases ws with
+    | nil => cases h
+    | cons w ws' =>
+      simp only [] at h
+      split at h
+      · cases h
+      · cases hd : decreaseBalance s e.validator_index e.amount with
+        | ok s1 =>
+          rw [hd] at h
+          simp only [] at h
+          unfold decreaseBalance at hd
+          simp only [rget_bind] at hd
+          cases hx : s.balances[e.validator_index]? with
+          | none => rw [hx] at hd; cases hd
+          | some x =>
+            rw [hx] at hd
+            simp only [res_bind_ok, Res.pure_eq] at hd
+            cases hd
+            obtain ⟨b', h1, h2, h3⟩ := ih ws' _ s' h
+            refine ⟨b', h1, by rw [h2]; simp, fun B hB => h3 B ?_⟩
+            simp only []
+            exact mem_set_le _ _ _ _ hB (by have := hB x (List.mem_of_getElem? hx); split <;> omega)
+        | err => rw [hd] at h; cases h
+        | panic => rw [hd] at h; cases h
+        | outOfFuel => rw [hd] at h; cases h
+
+/-- an accepted `ProcessWithdrawals`: balances (none upwards), the withdrawal index (by at most one payload's worth) and
+the sweep cursor (inside the registry) -/
+theorem processWithdrawals_shape (cfg : Config) (st st' : State) (payload : ExecutionPayload)
+    (hmax : cfg.MAX_WITHDRAWALS_PER_PAYLOAD ≠ 0)
+    (hroom : st.next_withdrawal_index + st.validators.length + 1 < 2 ^ 64)
+    (hroom2 : st.next_withdrawal_index + cfg.MAX_WITHDRAWALS_PER_PAYLOAD < 2 ^ 64)
+    (h : processWithdrawals cfg st payload = .ok st') :
+    ∃ b' nwi' nwv', st' = { st with balances := b', next_withdrawal_index := nwi', next_withdrawal_validator_index := nwv' } ∧
+      b'.length = st.balances.length ∧ (∀ B, (∀ x ∈ st.balances, x ≤ B) → ∀ x ∈ b', x ≤ B) ∧
+      nwi' ≤ st.next_withdrawal_index + cfg.MAX_WITHDRAWALS_PER_PAYLOAD ∧ nwv' < st.validators.length := by
+  unfold processWithdrawals at h
+  cases he : expectedWithdrawals cfg st with
+  | ok expected =>
+    rw [he] at h
+    simp only [res_bind_ok, guard_bind] at h
+    obtain ⟨hle, hws⟩ := expectedWithdrawals_bounds cfg st expected hmax hroom he
+    split at h
+    · cases hl : withdrawalsApplyLoop expected payload.withdrawals st with
+      | ok s1 =>
+        rw [hl] at h
+        simp only [res_bind_ok] at h
+        obtain ⟨b', hs1, hbl, hbb⟩ := withdrawalsApplyLoop_shape expected payload.withdrawals st s1 hl
+        subst hs1
+        cases hg : expected.getLast? with
+        | none =>
+          rw [hg] at h
+          simp only [] at h
+          split at h
+          · cases h
+          · split at h
+            · cases h
+            · rename_i hne
+              simp only [Res.pure_eq] at h
+              cases h
+              exact ⟨b', _, _, rfl, hbl, hbb, by omega, Nat.mod_lt _ (by omega)⟩
+        | some latest =>
+          rw [hg] at h
+          simp only [] at h
+          have hmem : latest ∈ expected := List.mem_of_getLast? hg
+          have hli := (hws latest hmem).1
+          have hw : w64 (latest.index + 1) = latest.index + 1 := w64_id _ (by omega)
+          split at h
+          · split at h
+            · cases h
+            · rename_i hne
+              simp only [Res.pure_eq] at h
+              cases h
+              exact ⟨b', _, _, rfl, hbl, hbb, by rw [hw]; omega, Nat.mod_lt _ (by omega)⟩
+          · split at h
+            · cases h
+            · rename_i hne
+              simp only [Res.pure_eq] at h
+              cases h
+              exact ⟨b', _, _, rfl, hbl, hbb, by rw [hw]; omega, Nat.mod_lt _ (by omega)⟩
+      | err => rw [hl] at h; cases h
+      | panic => rw [hl] at h; cases h
+      | outOfFuel => rw [hl] at h; cases h
+    · cases h
+  | err => rw [he] at h; cases h
+  | panic => rw [he] at h; cases h
+  | outOfFuel => rw [he] at h; cases h
+
+/-- configuration facts for capella and deneb -/
+structure CapConst (cfg : Config) : Prop where
+  hmaxw : cfg.MAX_WITHDRAWALS_PER_PAYLOAD ≠ 0
+  hsweep : cfg.VALIDATOR_REGISTRY_LIMIT + cfg.MAX_VALIDATORS_PER_WITHDRAWALS_SWEEP < 2 ^ 64
+
+set_option maxHeartbeats 1000000 in
+theorem alt_withdrawals (cfg : Config) (S0 : State) (p Bm C T : Nat) (committee : SyncCommittee) (KC : CapConst cfg) (ctx : Ctx)
+    (payload : ExecutionPayload) :
+    Step (fun k => AltInv cfg S0 p Bm C T committee k ctx) false [()] (fun st _ => Block.process_withdrawals cfg st payload)
+      (fun st _ => processWithdrawals cfg st payload) := by
+  intro k st u hu hi
+  have hnwi := hi.wd.nwi
+  rw [Nat.succ_mul] at hnwi
+  have hvlim := hi.wd.vlim
+  have hcurv := hi.wd.curv
+  have hsweep := KC.hsweep
+  have hroom : st.next_withdrawal_index + st.validators.length + 1 < 2 ^ 64 := by omega
+  have hroom2 : st.next_withdrawal_index + cfg.MAX_WITHDRAWALS_PER_PAYLOAD < 2 ^ 64 := by omega
+  refine ⟨sim_withdrawals cfg st payload hi.wd.wbal (by omega) hcurv (by omega) ?_ (by omega) KC.hmaxw, fun st' h => ⟨?_, fun hf => by cases hf⟩⟩
+  · intro expected he w hw
+    obtain ⟨hle, hws⟩ := expectedWithdrawals_bounds cfg st expected KC.hmaxw hroom he
+    have := hws w hw
+    omega
+  · show AltInv cfg S0 p Bm C T committee k ctx st'
+    have h : processWithdrawals cfg st payload = .ok st' := h
+    obtain ⟨b', nwi', nwv', hrec, hblen, hbb, hn1, hn2⟩ := processWithdrawals_shape cfg st st' payload KC.hmaxw hroom hroom2 h
+    have hsk : SlashInv cfg S0 p ctx.activeCount Bm (C - (k + 1)) (k * cfg.MAX_VALIDATORS_PER_COMMITTEE) st := hi.base.inv.mono.base.slash
+    have hs' : SlashInv cfg S0 p ctx.activeCount Bm (C - (k + 1)) (k * cfg.MAX_VALIDATORS_PER_COMMITTEE) st' := by
+      apply hsk.with_balances (by rw [hrec]) (by rw [hrec]) (by rw [hrec]) (by rw [hrec]) (by rw [hrec])
+      intro x hx
+      rw [hrec] at hx
+      have hold := hsk.balances
+      generalize k * cfg.MAX_VALIDATORS_PER_COMMITTEE * (2 * Bm) = W at hold ⊢
+      have := hbb (2 ^ 64 - 1 - W) (fun y hy => by have := hold y hy; omega) x hx
+      have hne : st.balances ≠ [] ∨ st.balances = [] := by by_cases h0 : st.balances = [] <;> simp [h0]
+      rcases hne with h0 | h0
+      · obtain ⟨y, hy⟩ := List.exists_mem_of_ne_nil _ h0
+        have := hold y hy
+        omega
+      · have : b' = [] := by apply List.eq_nil_of_length_eq_zero; rw [hblen, h0]; rfl
+        rw [this] at hx; cases hx
+    have hinv : P0AInv cfg S0 p Bm (C - (k + 1)) k ctx st' :=
+      ⟨⟨hs', hi.base.inv.base.ctxp, by rw [hrec]; exact hi.base.inv.base.plt, by rw [hrec]; exact hi.base.inv.base.mixes,
+        by rw [hrec]; exact hi.base.inv.base.vlen⟩,
+       hi.base.inv.comm.keep (by rw [hrec]) (by rw [hrec]) (fun e _ _ => seed_of_mixes cfg st st' _ _ (by rw [hrec])), hi.base.inv.nd, hi.base.inv.hcur⟩
+    refine ⟨hi.base.after hinv (by rw [hrec]) (by rw [hrec]), ?_, ?_⟩
+    · exact ⟨by rw [hrec]; exact hi.ext.roots, by rw [hrec]; exact hi.ext.partc, by rw [hrec]; exact hi.ext.partp,
+        by rw [total_active_balance_vals cfg st st' (by rw [hrec]) (by rw [hrec])]; exact hi.ext.tab, hi.ext.ctxT, hi.ext.ctxS,
+        by rw [hrec]; exact hi.ext.heb, by rw [hrec]; exact hi.ext.sc, hi.ext.sclen, hi.ext.sidx, by rw [hrec]; exact hi.ext.gt⟩
+    · refine ⟨by rw [hrec]; simp only []; rw [hblen]; exact hi.wd.wbal, by rw [hrec]; exact hvlim, by rw [hrec]; exact hn2, ?_⟩
+      rw [hrec]; simp only []; omega
+
+/-! ### capella and deneb blocks -/
+
+/-- a capella / deneb block container: the payload's `extra_data` inside its type limit, BLS changes in any number -/
+structure CapellaBlock (cfg : Config) (Bm : Nat) (block : SignedBlock) : Prop where
+  xdata : ∀ payload, block.execution_payload = some payload → payload.fields.extra_data.size ≤ cfg.MAX_EXTRA_DATA_BYTES
+  body : AltBody cfg Bm block
+
+/-- `OpSteps` for `AltInv`: every field discharged for every capella or deneb block -/
+theorem opSteps_capella (cfg : Config) (S0 : State) (p Bm C T : Nat) (committee : SyncCommittee) (F : Fork) (hFc : F ≥ .capella)
+    (K : P0Const cfg S0 Bm C) (KA : P0AConst cfg)
+    (KD : P0DConst cfg Bm) (KL : AltConst cfg S0 Bm T) (KC : CapConst cfg) (hsps : 0 < cfg.SECONDS_PER_SLOT) (hF : S0.fork = F) (block : SignedBlock)
+    (hb : CapellaBlock cfg Bm block) : OpSteps cfg block F (AltInv cfg S0 p Bm C T committee) :=
+  opSteps_alt cfg S0 p Bm C T committee F K KA KD KL hF (by intro h; rw [h] at hFc; exact absurd hFc (by decide)) block hb.body
+    (fun ctx payload hpl => alt_payload cfg S0 p Bm C T committee F hF (by cases F <;> first | decide | exact absurd hFc (by decide)) K hsps block ctx payload (hb.xdata payload hpl))
+    (fun _ ctx payload hpl => alt_withdrawals cfg S0 p Bm C T committee KC ctx payload)
+    (fun ctx => alt_bls cfg S0 p Bm C T committee _ ctx)
+
+theorem processBlock_capella (cfg : Config) (S0 : State) (p Bm C T k : Nat) (committee : SyncCommittee) (F : Fork) (hFc : F ≥ .capella)
+    (K : P0Const cfg S0 Bm C) (KA : P0AConst cfg)
+    (KD : P0DConst cfg Bm) (KL : AltConst cfg S0 Bm T) (KC : CapConst cfg) (hsps : 0 < cfg.SECONDS_PER_SLOT) (hF : S0.fork = F) (ctx : Ctx) (block : SignedBlock)
+    (hb : CapellaBlock cfg Bm block)
+    (hi : AltInv cfg S0 p Bm C T committee (blockNeed block k) ctx S0) (htyped : Block.check_types cfg block = .ok ()) :
+    Sim (Block.process_block cfg S0 block) (processBlock cfg ctx S0 block) ∧
+    ∀ st', processBlock cfg ctx S0 block = .ok st' → ∃ ctx', AltInv cfg S0 p Bm C T committee k ctx' st' :=
+  ⟨processBlock_sim (opSteps_capella cfg S0 p Bm C T committee F hFc K KA KD KL KC hsps hF block hb) k ctx S0 hi htyped,
+   processBlock_inv (opSteps_capella cfg S0 p Bm C T committee F hFc K KA KD KL KC hsps hF block hb) k ctx S0 hi⟩
+
+theorem postSlot_capella (cfg : Config) (S0 : State) (p Bm C T k : Nat) (committee : SyncCommittee) (F : Fork) (hFc : F ≥ .capella)
+    (K : P0Const cfg S0 Bm C) (KA : P0AConst cfg)
+    (KD : P0DConst cfg Bm) (KL : AltConst cfg S0 Bm T) (KC : CapConst cfg) (hsps : 0 < cfg.SECONDS_PER_SLOT) (hF : S0.fork = F) (ctx : Ctx) (block : SignedBlock)
+    (hb : CapellaBlock cfg Bm block)
+    (hi : AltInv cfg S0 p Bm C T committee (blockNeed block k) ctx S0) (htyped : Block.check_types cfg block = .ok ())
+    (r : Bytes) (hroot : block.o_post_root = some r) :
+    Sim (Block.state_transition_post_slots cfg S0 block) (postSlotTransition cfg ctx S0 block) :=
+  postSlot_sim (opSteps_capella cfg S0 p Bm C T committee F hFc K KA KD KL KC hsps hF block hb) k ctx S0 hi htyped r hroot
+
+/-! ### all five forks -/
+
+/-- the hypotheses of the per-fork theorems, as one disjunction over the fork of the pre-state `S0`: the block is of the
+fork's container class and `S0` satisfies the fork's invariant with `blockNeed block k` units of budget -/
+def Admissible (cfg : Config) (S0 : State) (p Bm C T : Nat) (committee : SyncCommittee) (k : Nat) (ctx : Ctx) (block : SignedBlock) : Prop :=
+  (S0.fork = .phase0 ∧ Phase0Block cfg Bm block ∧ P0DInv cfg S0 p Bm C (blockNeed block k) ctx S0) ∨
+  (S0.fork = .altair ∧ AltConst cfg S0 Bm T ∧ AltairBlock cfg Bm block ∧ AltInv cfg S0 p Bm C T committee (blockNeed block k) ctx S0) ∨
+  (S0.fork = .bellatrix ∧ AltConst cfg S0 Bm T ∧ 0 < cfg.SECONDS_PER_SLOT ∧ BellatrixBlock cfg Bm block ∧
+    AltInv cfg S0 p Bm C T committee (blockNeed block k) ctx S0) ∨
+  (S0.fork ≥ .capella ∧ AltConst cfg S0 Bm T ∧ CapConst cfg ∧ 0 < cfg.SECONDS_PER_SLOT ∧ CapellaBlock cfg Bm block ∧
+    AltInv cfg S0 p Bm C T committee (blockNeed block k) ctx S0)
+
+/-- `ProcessBlock` simulates `process_block` on every fork, with no premise about the operations -/
+theorem processBlock_any (cfg : Config) (S0 : State) (p Bm C T k : Nat) (committee : SyncCommittee) (K : P0Const cfg S0 Bm C) (KA : P0AConst cfg)
+    (KD : P0DConst cfg Bm) (ctx : Ctx) (block : SignedBlock) (ha : Admissible cfg S0 p Bm C T committee k ctx block)
+    (htyped : Block.check_types cfg block = .ok ()) :
+    Sim (Block.process_block cfg S0 block) (processBlock cfg ctx S0 block) := by
+  rcases ha with ⟨hF, hb, hi⟩ | ⟨hF, KL, hb, hi⟩ | ⟨hF, KL, hsps, hb, hi⟩ | ⟨hF, KL, KC, hsps, hb, hi⟩
+  · exact (processBlock_phase0 cfg S0 p Bm C k K KA KD hF ctx block hb hi htyped).1
+  · exact (processBlock_altair cfg S0 p Bm C T k committee K KA KD KL hF ctx block hb hi htyped).1
+  · exact (processBlock_bellatrix cfg S0 p Bm C T k committee K KA KD KL hsps hF ctx block hb hi htyped).1
+  · exact (processBlock_capella cfg S0 p Bm C T k committee S0.fork hF K KA KD KL KC hsps rfl ctx block hb hi htyped).1
+
+/-- the same for `PostSlotTransition` -/
+theorem postSlot_any (cfg : Config) (S0 : State) (p Bm C T k : Nat) (committee : SyncCommittee) (K : P0Const cfg S0 Bm C) (KA : P0AConst cfg)
+    (KD : P0DConst cfg Bm) (ctx : Ctx) (block : SignedBlock) (ha : Admissible cfg S0 p Bm C T committee k ctx block)
+    (htyped : Block.check_types cfg block = .ok ()) (r : Bytes) (hroot : block.o_post_root = some r) :
+    Sim (Block.state_transition_post_slots cfg S0 block) (postSlotTransition cfg ctx S0 block) := by
+  rcases ha with ⟨hF, hb, hi⟩ | ⟨hF, KL, hb, hi⟩ | ⟨hF, KL, hsps, hb, hi⟩ | ⟨hF, KL, KC, hsps, hb, hi⟩
+  · exact postSlot_phase0 cfg S0 p Bm C k K KA KD hF ctx block hb hi htyped r hroot
+  · exact postSlot_altair cfg S0 p Bm C T k committee K KA KD KL hF ctx block hb hi htyped r hroot
+  · exact postSlot_bellatrix cfg S0 p Bm C T k committee K KA KD KL hsps hF ctx block hb hi htyped r hroot
+  · exact postSlot_capella cfg S0 p Bm C T k committee S0.fork hF K KA KD KL KC hsps rfl ctx block hb hi htyped r hroot
+
+/-- the disjunction leaves no fork out -/
+theorem fork_cases (f : Fork) : f = .phase0 ∨ f = .altair ∨ f = .bellatrix ∨ f ≥ .capella := by
+  cases f <;> simp <;> decide
 
 end Zrnt.Proofs.BlockM
